@@ -527,6 +527,7 @@ func runC14(c *Ctx) {
 func ConstIntOK(v ssa.Value) (int64, bool) { return ConstInt(v) }
 
 var c14Canaries = []Canary{
+	{Name: "r5-full-buffer-is-eof", ExpectKey: "C14.R1#incomingOrCached", Edits: []Edit{{File: "commands/command_filter_process.go", Find: "\tif err == io.EOF {\n\t\treturn bytes.NewReader(buf), nil\n\t}\n\treturn io.MultiReader(bytes.NewReader(buf), r), err", Repl: "\tif n < cap(buf) {\n\t\treturn bytes.NewReader(buf), nil\n\t}\n\treturn io.MultiReader(bytes.NewReader(buf), r), err"}}},
 	{Name: "r4-header-trimmed", ExpectKey: "C14.R1#request-header", Edits: []Edit{{File: "git/filter_process_scanner.go", Find: "req.Header[v[0]] = v[1]", Repl: "req.Header[v[0]] = strings.TrimSpace(v[1])"}}},
 	{Name: "clean-no-first-status", ExpectKey: "C14.R1#exchange:clean", Edits: []Edit{{File: "commands/command_filter_process.go", Find: "		case \"clean\":\n			s.WriteStatus(statusFromErr(nil))\n", Repl: "		case \"clean\":\n"}}},
 	{Name: "status-after-content", ExpectKey: "C14.R1#delayedSmudge", Edits: []Edit{{File: "commands/command_smudge.go", Find: "		if err := s.WriteStatus(statusFromErr(nil)); err != nil {\n			return 0, false, nil, err\n		}\n\n		n, err := tools.Spool(to, pbuf, cfg.TempDir())\n		if err != nil {\n			return n, false, nil, errors.Wrap(err, perr.Error())\n		}", Repl: "		n, err := tools.Spool(to, pbuf, cfg.TempDir())\n		if err != nil {\n			return n, false, nil, errors.Wrap(err, perr.Error())\n		}\n		if err := s.WriteStatus(statusFromErr(nil)); err != nil {\n			return 0, false, nil, err\n		}"}}},
